@@ -9,6 +9,8 @@
      Verdict `ok` iff every entry is what the allocator model (`Pages.step`, with the defect flags given) produces:
      result, header and the free-list walk (at most total_pages entries).
 
+  3. `iter <pagesize>`: observation `obs oks=<n> then=<a>,<b>,<c>`; `ok` iff `then=none,none,none`.
+
   2. SQL histories
      case        ::= sql <pagesize> <cache> | op ; op ; …       (ops are not interpreted here, only counted)
      observation ::= obs <step> ; <step> ; …                     (one per op)
@@ -373,6 +375,14 @@ def judge (flags : List String) (line : String) : String :=
     let gat := (obs.splitOn " ## ").headD ""
     if c.startsWith "seq " then judgeSeqCase D c gat
     else if c.startsWith "sql " then judgeSqlCase D c gat
+    else if c = "iter 4096" || c = "iter 8192" then
+      -- the position iterator must end once it has reported an error (KF-C11-iterator-repeats-error)
+      match (gat.splitOn " ") with
+      | ["obs", oks, thn] =>
+        if !oks.startsWith "oks=" then s!"bad unparsable observation"
+        else if thn = "then=none,none,none" then "ok"
+        else s!"bad iterator goes on after an error: {thn}"
+      | _ => s!"bad implementation failed: {gat.take 60}"
     else if gat = "bad-op" then "ok" else "bad unknown case kind"
   | _ => "bad-op"
 
